@@ -1,7 +1,8 @@
-(* C06: what the writers put into a cue is the text of the snapshot leaves they walk over — nothing dropped, invented,
-   repeated or reordered — as long as their dispatch (Div / P / Span / Br / Text; region -> body -> div -> p for WebVTT)
-   meets no element that it has no case for and that holds text (the executable predicates `srt_block_ok`,
-   `vtt_region_ok`; their negations are the triggers of the recorded findings writers-skip-ruby and vtt-nested-div-lost).
+(* C06: what the writers put into a cue is the text of the snapshot leaves they walk over, outside ruby annotations (`base_text`:
+   ruby base text is carried, the text below rt / rtc / rp is not) — nothing dropped, invented, repeated or reordered — as long as
+   their dispatch (Div / P, then Span / Ruby / Rbc / Rb / Br / Text) meets no element that it has no case for and that holds
+   text (the executable predicates `inline_ok`, `srt_block_ok`; they hold for every snapshot of a document that follows the
+   content model of model.py: Proofs/C06/Content.v).
    Characters are compared through `visc`: the characters that are not white space (str.isspace). *)
 From TT Require Import Model.Doc Gen.StyleTables Model.Isd Model.SigTimes Model.TimeCode Model.IsdFilters Gen.CueTables Model.CueWriter.
 From TT Require Import Model.CueTriggers Spec.IsdSpec Proofs.Common.ElemInd Proofs.C01.Lwsp Proofs.C06.Filters.
@@ -42,24 +43,33 @@ Definition is_nil {A} (l : list A) : bool := match l with [] => true | _ => fals
 Lemma is_nil_eq {A} (l : list A) : is_nil l = true -> l = [].
 Proof. destruct l; [reflexivity | discriminate]. Qed.
 
-(* the inline dispatch of both writers: Span (recursively), Br, Text; anything else must hold no text *)
+(* the inline dispatch of both writers: Span, Ruby, Rbc, Rb (recursively), Br, Text; the annotations Rt, Rtc, Rp are left out on
+   purpose; anything else must hold no text *)
+Definition descends (k : kind) : bool := match k with KSpan | KRuby | KRbc | KRb => true | _ => false end.
 Fixpoint inline_ok (e : elem) : bool :=
   match e with
   | Elem a cs =>
       match e_kind a with
-      | KSpan => (fix go (l : list elem) : bool := match l with [] => true | c :: l' => inline_ok c && go l' end) cs
-      | KBr | KText => true
-      | _ => is_nil (leaves_text e)
+      | KSpan | KRuby | KRbc | KRb => (fix go (l : list elem) : bool := match l with [] => true | c :: l' => inline_ok c && go l' end) cs
+      | KBr | KText | KRt | KRtc | KRp => true
+      | _ => is_nil (base_text e)
       end
   end.
 Lemma inline_ok_node a cs :
   inline_ok (Elem a cs) = match e_kind a with
-                          | KSpan => forallb inline_ok cs
-                          | KBr | KText => true
-                          | _ => is_nil (leaves_text (Elem a cs))
+                          | KSpan | KRuby | KRbc | KRb => forallb inline_ok cs
+                          | KBr | KText | KRt | KRtc | KRp => true
+                          | _ => is_nil (base_text (Elem a cs))
                           end.
 Proof. cbn [inline_ok]. destruct (e_kind a); reflexivity. Qed.
 
+Lemma base_text_node a cs :
+  base_text (Elem a cs) = match e_kind a with
+                          | KBr | KRt | KRtc | KRp => []
+                          | KText => nonspace (e_text a)
+                          | _ => flat_map base_text cs
+                          end.
+Proof. unfold base_text. rewrite sel_text_node. destruct (e_kind a); reflexivity. Qed.
 Lemma leaves_text_node a cs :
   leaves_text (Elem a cs) = match e_kind a with
                             | KBr => []
@@ -67,28 +77,26 @@ Lemma leaves_text_node a cs :
                             | _ => flat_map leaves_text cs
                             end.
 Proof.
-  unfold leaves_text at 1. rewrite shown_leaves_node. destruct (e_kind a) eqn:Ek; try (rewrite flat_map_flat_map; reflexivity).
-  - unfold leaf_of. rewrite Ek. reflexivity.
-  - unfold leaf_of. rewrite Ek. destruct (nonspace (e_text a)); [reflexivity|]. cbn [flat_map leaf_chars]. apply app_nil_r.
+  rewrite <- sel_text_none, sel_text_node. unfold sk_none.
+  destruct (e_kind a); try reflexivity; (apply flat_map_ext_in; intros c _; apply sel_text_none).
 Qed.
 
 (* the characters of the SubRip inline output *)
 Lemma srt_inline_node fmt a cs :
   chars_of (srt_inline fmt (Elem a cs)) =
   match e_kind a with
-  | KSpan => flat_map (fun c => chars_of (srt_inline fmt c)) cs
+  | KSpan | KRuby | KRbc | KRb => flat_map (fun c => chars_of (srt_inline fmt c)) cs
   | KBr => [10]
   | KText => e_text a
   | _ => []
   end.
 Proof.
-  cbn [srt_inline]. destruct (e_kind a); try reflexivity.
+  assert (G : chars_of ((fix go (l : list elem) : list item := match l with [] => [] | c :: l' => srt_inline fmt c ++ go l' end) cs)
+              = flat_map (fun c => chars_of (srt_inline fmt c)) cs).
+  { induction cs as [|c cs IH]; [reflexivity|]. rewrite chars_of_app, IH. reflexivity. }
+  cbn [srt_inline]. destruct (e_kind a); try reflexivity; try exact G.
   - (* span *)
-    rewrite !chars_of_app.
-    assert (G : chars_of ((fix go (l : list elem) : list item := match l with [] => [] | c :: l' => srt_inline fmt c ++ go l' end) cs)
-                = flat_map (fun c => chars_of (srt_inline fmt c)) cs).
-    { induction cs as [|c cs IH]; [reflexivity|]. rewrite chars_of_app, IH. reflexivity. }
-    rewrite G.
+    rewrite !chars_of_app, G.
     assert (T1 : forall (b : bool) (x : list item), forallb is_tag x = true -> chars_of (if b then x else []) = [])
       by (intros [|] x Hx; [apply chars_of_tags, Hx | reflexivity]).
     rewrite !T1; [rewrite app_nil_r; reflexivity | |].
@@ -98,15 +106,30 @@ Proof.
   - (* text *) apply chars_of_chr.
 Qed.
 
-Theorem srt_inline_text fmt : forall e, inline_ok e = true -> visc (chars_of (srt_inline fmt e)) = visc (leaves_text e).
+Theorem srt_inline_text fmt : forall e, inline_ok e = true -> visc (chars_of (srt_inline fmt e)) = visc (base_text e).
 Proof.
-  induction e as [a cs IH] using elem_ind2. intros H. rewrite srt_inline_node, leaves_text_node. rewrite inline_ok_node in H.
+  induction e as [a cs IH] using elem_ind2. intros H. rewrite srt_inline_node, base_text_node. rewrite inline_ok_node in H.
+  assert (G : forallb inline_ok cs = true ->
+              visc (flat_map (fun c => chars_of (srt_inline fmt c)) cs) = visc (flat_map base_text cs)).
+  { intros Hc. rewrite !visc_flat_map. apply flat_map_ext_in. intros c Hin. rewrite Forall_forall in IH. apply IH; [exact Hin|].
+    rewrite forallb_forall in Hc. apply Hc, Hin. }
   destruct (e_kind a) eqn:Ek.
-  all: try (rewrite leaves_text_node, Ek in H; rewrite (is_nil_eq _ H); reflexivity).
-  - (* span *) rewrite !visc_flat_map. apply flat_map_ext_in. intros c Hc. rewrite Forall_forall in IH. apply IH; [exact Hc|].
-    rewrite forallb_forall in H. apply H, Hc.
-  - (* br *) reflexivity.
-  - (* text *) symmetry. apply visc_nonspace.
+  all: try (apply G, H).
+  all: try reflexivity.
+  all: try (rewrite base_text_node, Ek in H; rewrite (is_nil_eq _ H); reflexivity).
+  (* text *) symmetry. apply visc_nonspace.
+Qed.
+(* ... and every visible character it writes is a character of the base text, whatever the element *)
+Lemma srt_inline_sub fmt x : visible x = true -> forall e, In x (chars_of (srt_inline fmt e)) -> In x (base_text e).
+Proof.
+  intros Hx. induction e as [a cs IH] using elem_ind2. rewrite srt_inline_node, base_text_node.
+  assert (G : In x (flat_map (fun c => chars_of (srt_inline fmt c)) cs) -> In x (flat_map base_text cs)).
+  { intros H. apply in_flat_map in H as (c & Hc & H). apply in_flat_map. exists c. split; [exact Hc|].
+    rewrite Forall_forall in IH. apply IH; assumption. }
+  destruct (e_kind a); try exact G; try (intros []; fail).
+  - (* br *) intros [<-|[]]. discriminate Hx.
+  - (* text *) intros H. unfold nonspace. apply filter_In. split; [exact H|].
+    destruct (is_space x) eqn:E; [|reflexivity]. unfold visible in Hx. rewrite (space_is_pyspace x E) in Hx. discriminate.
 Qed.
 
 (* the WebVTT inline output has the same characters, whatever the CSS class registry holds *)
@@ -132,18 +155,18 @@ Qed.
 Theorem vtt_inline_chars : forall e s, chars_of (fst (vtt_inline e s)) = chars_of (srt_inline false e).
 Proof.
   induction e as [a cs IH] using elem_ind2. intros s. rewrite srt_inline_node. cbn [vtt_inline].
-  destruct (e_kind a); try reflexivity.
+  assert (G : forall s0, chars_of (fst (vtt_inlines cs s0)) = flat_map (fun c => chars_of (srt_inline false c)) cs).
+  { intros s0. rewrite Forall_forall in IH. apply vtt_inlines_chars. exact IH. }
+  destruct (e_kind a); try reflexivity; try (rewrite vtt_inline_go_eq; apply G).
   - (* span *)
     rewrite vtt_inline_go_eq.
-    match goal with |- context [vtt_inlines cs ?s0] => destruct (vtt_inlines cs s0) as [inner s3] eqn:Ei;
-      pose proof (vtt_inlines_chars cs s0) as G; rewrite Ei in G end.
-    cbn [fst] in *. rewrite Forall_forall in IH. specialize (G IH).
-    rewrite !chars_of_app, G.
+    match goal with |- context [vtt_inlines cs ?s0] => pose proof (G s0) as G0; destruct (vtt_inlines cs s0) as [inner s3] end.
+    cbn [fst] in *. rewrite !chars_of_app, G0.
     destruct (get_color_of a p_Color), (get_color_of a p_BackgroundColor), (is_element_bold a), (is_element_italic a),
       (is_element_underlined a); cbn [chars_of flat_map app]; rewrite ?app_nil_r; reflexivity.
   - (* text *) cbn [fst]. apply chars_of_chr.
 Qed.
-Corollary vtt_inlines_text l s : forallb inline_ok l = true -> visc (chars_of (fst (vtt_inlines l s))) = visc (flat_map leaves_text l).
+Corollary vtt_inlines_text l s : forallb inline_ok l = true -> visc (chars_of (fst (vtt_inlines l s))) = visc (flat_map base_text l).
 Proof.
   intros H. rewrite vtt_inlines_chars by (intros c _ s'; apply vtt_inline_chars).
   rewrite !visc_flat_map. apply flat_map_ext_in. intros c Hc. apply srt_inline_text. rewrite forallb_forall in H. apply H, Hc.
@@ -174,20 +197,23 @@ Proof.
   unfold normalize_eol, strip_eol. rewrite only_whitespace_rev, drop_while_ws, only_whitespace_rev, drop_while_ws. apply collapse_lf_ws.
 Qed.
 
-Definition esc_keeps (esc : Z -> text) : Prop := forall c, only_whitespace (esc c) = true -> py_isspace c = true.
-Lemma esc_none_keeps : esc_keeps esc_none.
-Proof. intros c H. unfold esc_none, only_whitespace in H. cbn [forallb] in H. rewrite andb_true_r in H. exact H. Qed.
-Lemma esc_vtt_keeps : esc_keeps esc_vtt.
+(* white space in, white space out: the escapes of WebVTT are not white space *)
+Definition esc_ws (esc : Z -> text) : Prop := forall c, only_whitespace (esc c) = py_isspace c.
+Lemma esc_none_ws : esc_ws esc_none.
+Proof. intros c. unfold esc_none, only_whitespace. cbn [forallb]. apply andb_true_r. Qed.
+Lemma esc_vtt_ws : esc_ws esc_vtt.
 Proof.
-  intros c H. unfold esc_vtt in H. destruct (c =? 38) eqn:E1; [discriminate H|]. destruct (c =? 60) eqn:E2; [discriminate H|].
-  unfold only_whitespace in H. cbn [forallb] in H. rewrite andb_true_r in H. exact H.
+  intros c. unfold esc_vtt. destruct (c =? 38) eqn:E1; [apply Z.eqb_eq in E1; subst c; reflexivity|].
+  destruct (c =? 60) eqn:E2; [apply Z.eqb_eq in E2; subst c; reflexivity|]. unfold only_whitespace. cbn [forallb]. apply andb_true_r.
 Qed.
-Lemma blank_flat esc items : esc_keeps esc -> only_whitespace (flat esc items) = true -> visc (chars_of items) = [].
+Lemma only_whitespace_app a b : only_whitespace (a ++ b) = only_whitespace a && only_whitespace b.
+Proof. apply forallb_app. Qed.
+Lemma only_whitespace_esc esc : esc_ws esc -> forall t, only_whitespace (flat_map esc t) = only_whitespace t.
 Proof.
-  intros He. induction items as [|[t|c] items IH]; intros H; [reflexivity | |];
-    unfold flat in H; cbn [flat_map] in H; unfold only_whitespace in H; rewrite forallb_app in H; apply andb_true_iff in H as [H1 H2].
-  - apply IH, H2.
-  - cbn [chars_of flat_map app]. unfold visc. cbn [filter]. unfold visible at 1. rewrite (He c H1). cbn [negb]. apply IH, H2.
+  intros He. induction t as [|c t IH]; [reflexivity|]. cbn [flat_map]. rewrite only_whitespace_app, IH, He. reflexivity.
 Qed.
-Lemma blank_cue esc c : esc_keeps esc -> only_whitespace (cue_text esc c) = true -> visc (cue_chars c) = [].
-Proof. intros He H. unfold cue_text in H. rewrite normalize_eol_ws in H. apply (blank_flat esc _ He H). Qed.
+Lemma only_whitespace_visc t : only_whitespace t = true <-> visc t = [].
+Proof.
+  unfold only_whitespace, visc. induction t as [|c t IH]; [split; reflexivity|]. cbn [forallb filter]. unfold visible at 1.
+  destruct (py_isspace c); cbn [negb andb]; [exact IH | split; discriminate].
+Qed.
